@@ -1177,6 +1177,7 @@ def run(chk, ctx):
         timed('K gen import', PR.k_gen_import, chk, ctx, R('k-gen-import'), 12 if quick else 120, eval_sym)
         timed('K gen apply', PR.k_gen_apply, chk, ctx, R('k-gen-apply'), 60 if quick else 600)
         timed('K gen integrate', PR.k_gen_integrate, chk, ctx, R('k-gen-integrate'))
+        timed('K classify', PR.k_classify, chk, ctx, R('k-classify'), 10 if quick else 100)
     if not any(e is not None for e in chk.translate.values()):
         guard_generated('after the correspondence')
     timed('L3 edges', l3_edges, chk, ctx)
